@@ -15,7 +15,7 @@ def lookup_budget(n, k):
 
 
 def run_repair(rows, k, start, text, check=None, has_indel=True, heap_size=1e9, budget=None, line_budget=None,
-               layout=None):
+               layout=None, np_start=False):
     """repair_dna on a counting proxy.  Returns (result | Raised | "BUDGET" | "STEPS", look-ups, lines)."""
     dsw = import_dsw()
     acc, counter = counted(gens.accessor_of({"k": k, "rows": rows}, layout),
@@ -40,6 +40,9 @@ def run_repair(rows, k, start, text, check=None, has_indel=True, heap_size=1e9, 
     try:
         if tracer is not None:
             sys.settrace(tracer)
+        if np_start:
+            import numpy
+            start = numpy.int64(start)
         result = lib_call(dsw.repair_dna, dna_sequence=text, accessor=acc, start_index=start, observed_length=k,
                           vt_check=check, has_indel=has_indel, heap_size=heap_size)
     except LookupBudgetExceeded:
